@@ -13,7 +13,9 @@ SegTokens ==
     ("*" :> <<"*">>) @@ ("?" :> <<"?">>) @@ ("a" :> <<"a">>) @@ ("b" :> <<"b">>) @@ ("c" :> <<"c">>)
     @@ ("a*" :> <<"a", "*">>) @@ ("*b" :> <<"*", "b">>) @@ ("??" :> <<"?", "?">>) @@ ("[ab]" :> <<"[ab]">>)
     @@ ("[^a]" :> <<"[^a]">>) @@ ("\\a" :> <<"\\a">>) @@ ("w" :> <<"w">>) @@ ("*a*" :> <<"*", "a", "*">>)
-IsMetaSeg(seg) == seg \in {"*", "?", "a*", "*b", "??", "[ab]", "[^a]", "\\a", "*a*"}
+\* segments that are no well-formed pattern (an unfinished class): Glob checks the whole pattern before it looks at the tree
+BadSegs == {"[a", "[", "a["}
+IsMetaSeg(seg) == seg \in {"*", "?", "a*", "*b", "??", "[ab]", "[^a]", "\\a", "*a*"} \cup BadSegs
 
 \* a pattern token against one character
 TokMatch(t, ch) ==
@@ -55,6 +57,7 @@ PathStrK(abs, ps, k) ==
 (* results in lexical order; a pattern without meta characters is a plain   *)
 (* Lstat.  prefix: the components matched so far (as they will be printed).*)
 (***************************************************************************)
+StarSeg(seg) == seg \in {"*", "a*", "*b", "*a*"}
 HasMeta(segs) == \E i \in DOMAIN segs : IsMetaSeg(segs[i])
 
 RECURSIVE GlobR(_, _, _, _, _, _)
@@ -78,8 +81,17 @@ GlobR(st, abs, prefix, segs, fuel, k) ==
     ELSE Each(names)
 
 GlobK(st, c, k) ==
-    LET segs == c.p.parts IN
-    IF ~HasMeta(segs) THEN
+    LET segs == c.p.parts
+        bad == {i \in DOMAIN segs : segs[i] \in BadSegs} IN
+    IF bad # {} THEN
+        \* filepath.Match finds a malformed class only in a chunk it evaluates: Glob's initial check of the whole pattern
+        \* evaluates the first chunk (everything before the first '*'); a later chunk is evaluated when the segment is
+        \* matched against the first entry of a directory the part before it has reached
+        LET i == CHOOSE x \in bad : \A y \in bad : x <= y IN
+        IF \A j \in 1..(i - 1) : ~StarSeg(segs[j]) THEN Ret([R0 EXCEPT !.err = "EBADPAT"], st)
+        ELSE IF GlobR(st, c.p.abs, <<>>, SubSeq(segs, 1, i - 1) \o <<"*">>, 6, k) # <<>> THEN Ret([R0 EXCEPT !.err = "EBADPAT"], st)
+        ELSE Ret(R0, st)
+    ELSE IF ~HasMeta(segs) THEN
         LET r == Res(st, c.p, FALSE) IN
         Ret([R0 EXCEPT !.names = IF r.err = "ok" /\ r.id # 0 THEN <<PathStrK(c.p.abs, segs, k)>> ELSE <<>>], st)
     ELSE LET ms == GlobR(st, c.p.abs, <<>>, segs, 6, k) IN Ret([R0 EXCEPT !.names = ms, !.n = Len(ms)], st)
